@@ -87,6 +87,21 @@ rec(2, lambda: next(gen_caller()))
 rec(2, coro_caller)
 
 
+# callers that live in modules whose names merely LOOK like the package's: they are the user's code, the stack ends with them
+for modname in ("stackscope_helpers", "stackscopeviz.render", "stackscope", "stackscopes.sub", "xstackscope.y", "stackscope._tests.x", ""):
+    ns = {"__name__": modname, "extract_since": extract_since, "extract": extract, "StackSlice": StackSlice, "sys": sys}
+    exec("def call():\n    me = sys._getframe(0)\n    return me, extract_since(None), extract(StackSlice(outer=sys._getframe(1)))\n"
+         "def via():\n    return call()\n", ns)
+    me_, s1, s2 = ns["via"]()
+    leg.case(("caller-module", modname), True)
+    if not s1.frames or s1.frames[-1].pyframe is not me_ or s1.error is not None:
+        leg.violation(("caller-module", modname), f"extract_since(None) called from a module named {modname!r} does not end with the calling frame: "
+                                                  f"{[f.funcname for f in s1.frames][-3:]} error={s1.error!r}")
+    if [f.funcname for f in s2.frames] != ["via", "call"] or s2.error is not None:
+        leg.violation(("caller-module", modname), f"StackSlice(outer=<caller's caller>) called from a module named {modname!r}: "
+                                                  f"{[f.funcname for f in s2.frames]} error={s2.error!r}")
+
+
 def level(k):
     def body():
         if k == 0:
